@@ -167,6 +167,14 @@ def main(argv=None):
         if e["status"] == "unknown":
             undecided.append(e)
             continue
+        if e["kind"] == "inv-form":
+            # the loop under contract no longer has the form its invariant describes (state renamed / moved into a
+            # helper ...): the proof cannot be replayed until the contract is re-attached -- undecided, not a violation
+            for v in e["vcs"]:
+                if not v.get("reason"):
+                    v["reason"] = "loop restructured: its contract has to be re-attached (no verdict)"
+            undecided.append(e)
+            continue
         if mask(e["name"]) in known_names:
             known_hit.setdefault(known_names[mask(e["name"])]["id"], []).append(e)
         else:
@@ -199,7 +207,7 @@ def main(argv=None):
         rc = max(rc, 3) if rc != 1 else 1
     if undecided:
         for e in undecided:
-            print(f"UNDECIDED obligation={e['name']} reason={[v.get('reason') for v in e['vcs'] if v['status']=='unknown'][:1]}")
+            print(f"UNDECIDED obligation={e['name']} reason={[v.get('reason') for v in e['vcs'] if v.get('reason')][:1]}")
         if rc == 0:
             rc = 2
     # ---- evidence
